@@ -22,6 +22,7 @@ import (
 	"github.com/bufbuild/buf/private/bufpkg/bufcas"
 	"github.com/bufbuild/buf/private/bufpkg/bufmodule"
 	"github.com/bufbuild/buf/private/bufpkg/bufmodule/bufmodulestore"
+	"github.com/bufbuild/buf/private/bufpkg/bufmodule/bufmoduletesting"
 	"github.com/bufbuild/buf/private/bufpkg/bufparse"
 	"github.com/bufbuild/buf/private/bufpkg/bufplugin"
 	"github.com/bufbuild/buf/private/pkg/filelock"
@@ -120,11 +121,11 @@ type mod struct {
 }
 
 type dsim struct {
-	tp   *tape.Tape
-	s    *sched.Sim
-	env  *engine.Env
-	mods []*mod
-	n    int
+	tp       *tape.Tape
+	s        *sched.Sim
+	env      *engine.Env
+	mods     []*mod
+	n        int
 	counters map[string]int
 	lastB4   string
 	faults   bool
@@ -137,7 +138,7 @@ func (m *dsim) violate(oracle, site, format string, args ...any) {
 	m.s.Violate(oracle, "C08|"+oracle+"|"+site, "%s", msg)
 }
 
-var oddDirs = []string{"", "pkg", "pkg/v1", "with space", "ünï/cødé", "a.b/c-d_e", "two  spaces", " lead", "trail ", "tab\there", "shake256:ab  x"}
+var oddDirs = []string{"", "pkg", "pkg/v1", ".hidden", "pkg/.internal", "..dots", "back\\slash", "with space", "ünï/cødé", "a.b/c-d_e", "two  spaces", " lead", "trail ", "tab\there", "shake256:ab  x"}
 
 func (m *dsim) drawModules() {
 	n := 1 + m.tp.Draw("d.nmods", 3)
@@ -579,6 +580,11 @@ func Run(tp *tape.Tape, env *engine.Env) *engine.Outcome {
 		}
 	}
 
+	// a remote module whose recorded dependency commit differs from what the module set holds
+	if tp.Draw("remotepins", 3) == 2 {
+		m.remotePinnedDeps()
+	}
+
 	// the same module objects asked by several goroutines at once
 	if tp.Draw("concurrent", 2) == 1 {
 		m.concurrentDigests(ref)
@@ -772,6 +778,148 @@ func totalFired(s *sched.Sim) int {
 		n += v
 	}
 	return n
+}
+
+// byCommit is a registry that serves several commits of one module name (each from its own
+// in-memory provider).
+type byCommit map[uuid.UUID]bufmoduletesting.OmniProvider
+
+func (r byCommit) find(id uuid.UUID) (bufmoduletesting.OmniProvider, error) {
+	p, ok := r[id]
+	if !ok {
+		return nil, fmt.Errorf("no such commit %s", id)
+	}
+	return p, nil
+}
+
+func (r byCommit) GetModuleDatasForModuleKeys(ctx context.Context, keys []bufmodule.ModuleKey) ([]bufmodule.ModuleData, error) {
+	var out []bufmodule.ModuleData
+	for _, k := range keys {
+		p, err := r.find(k.CommitID())
+		if err != nil {
+			return nil, err
+		}
+		ds, err := p.GetModuleDatasForModuleKeys(ctx, []bufmodule.ModuleKey{k})
+		if err != nil {
+			return nil, err
+		}
+		out = append(out, ds...)
+	}
+	return out, nil
+}
+
+func (r byCommit) GetCommitsForModuleKeys(ctx context.Context, keys []bufmodule.ModuleKey) ([]bufmodule.Commit, error) {
+	var out []bufmodule.Commit
+	for _, k := range keys {
+		p, err := r.find(k.CommitID())
+		if err != nil {
+			return nil, err
+		}
+		cs, err := p.GetCommitsForModuleKeys(ctx, []bufmodule.ModuleKey{k})
+		if err != nil {
+			return nil, err
+		}
+		out = append(out, cs...)
+	}
+	return out, nil
+}
+
+func (r byCommit) GetCommitsForCommitKeys(ctx context.Context, keys []bufmodule.CommitKey) ([]bufmodule.Commit, error) {
+	var out []bufmodule.Commit
+	for _, k := range keys {
+		p, err := r.find(k.CommitID())
+		if err != nil {
+			return nil, err
+		}
+		cs, err := p.GetCommitsForCommitKeys(ctx, []bufmodule.CommitKey{k})
+		if err != nil {
+			return nil, err
+		}
+		out = append(out, cs...)
+	}
+	return out, nil
+}
+
+// remotePinnedDeps: a remote module R was published against commit C1 of its dependency A; the
+// module set being built holds a NEWER commit C2 of A (after a dependency update) and, sometimes, a
+// local module as well. R's digest is a function of R's files and of the digest of A at C1 - what else
+// the set holds must not matter. The recorded dependency keys carry the legacy digest type (a v1 lock
+// file) in some runs, so that they have to be converted first.
+func (m *dsim) remotePinnedDeps() {
+	ctx := context.Background()
+	commit := func(tag byte) uuid.UUID {
+		var id uuid.UUID
+		copy(id[:], m.tp.Bytes("rp.commit", 16))
+		id[15] = tag
+		id[6] = (id[6] & 0x0f) | 0x40
+		id[8] = (id[8] & 0x3f) | 0x80
+		return id
+	}
+	c1, c2, cr := commit(1), commit(2), commit(3)
+	filesA1 := map[string][]byte{"dep/a.proto": []byte(fmt.Sprintf("syntax = \"proto3\";\npackage dep;\n// first %d\nmessage A { string s = 1; }\n", m.tp.Draw("d.nonce", 1000)))}
+	filesA2 := map[string][]byte{"dep/a.proto": []byte(fmt.Sprintf("syntax = \"proto3\";\npackage dep;\n// second %d\nmessage A { string s = 1; int32 n = 2; }\n", m.tp.Draw("d.nonce", 1000)))}
+	filesR := map[string][]byte{"r/r.proto": []byte(fmt.Sprintf("syntax = \"proto3\";\npackage r;\nimport \"dep/a.proto\";\n// %d\nmessage R { dep.A a = 1; }\n", m.tp.Draw("d.nonce", 1000)))}
+	p1, err := bufmoduletesting.NewOmniProvider(
+		bufmoduletesting.ModuleData{Name: "buf.build/acme/dep", CommitID: c1, PathToData: filesA1},
+		bufmoduletesting.ModuleData{Name: "buf.build/acme/r", CommitID: cr, PathToData: filesR},
+	)
+	if err != nil {
+		panic(err)
+	}
+	p2, err := bufmoduletesting.NewOmniProvider(bufmoduletesting.ModuleData{Name: "buf.build/acme/dep", CommitID: c2, PathToData: filesA2})
+	if err != nil {
+		panic(err)
+	}
+	registry := byCommit{c1: p1, cr: p1, c2: p2}
+	digestType := bufmodule.DigestTypeB5
+	if m.tp.Draw("rp.b4", 2) == 1 {
+		digestType = bufmodule.DigestTypeB4
+	}
+	keyOf := func(p bufmoduletesting.OmniProvider, name string) bufmodule.ModuleKey {
+		fn, err := bufparse.ParseFullName(name)
+		if err != nil {
+			panic(err)
+		}
+		ref, err := bufparse.NewRef(fn.Registry(), fn.Owner(), fn.Name(), "")
+		if err != nil {
+			panic(err)
+		}
+		keys, err := p.GetModuleKeysForModuleRefs(ctx, []bufparse.Ref{ref}, digestType)
+		if err != nil {
+			panic(err)
+		}
+		return keys[0]
+	}
+	builder := bufmodule.NewModuleSetBuilder(ctx, slogext.NopLogger, registry, registry)
+	builder.AddRemoteModule(keyOf(p1, "buf.build/acme/r"), true)
+	builder.AddRemoteModule(keyOf(p2, "buf.build/acme/dep"), false)
+	if m.tp.Draw("rp.local", 2) == 1 {
+		app, err := storagemem.NewReadBucket(map[string][]byte{"app/app.proto": []byte("syntax = \"proto3\";\npackage app;\nimport \"r/r.proto\";\nmessage App { r.R r = 1; }\n")})
+		if err != nil {
+			panic(err)
+		}
+		builder.AddLocalModule(app, "app", true)
+	}
+	moduleSet, err := builder.Build()
+	if err != nil {
+		m.violate("digest-computable", "remote-pins", "module set with a remote module and a newer commit of its dependency cannot be built: %v", err)
+		return
+	}
+	want := refB5(filesR, []string{refB5(filesA1, nil)})
+	for _, mod := range moduleSet.Modules() {
+		if mod.FullName() == nil || mod.FullName().String() != "buf.build/acme/r" {
+			continue
+		}
+		got, err := mod.Digest(bufmodule.DigestTypeB5)
+		if err != nil {
+			m.violate("digest-computable", "remote-pins", "digest of the remote module failed (recorded dependency keys: %v): %v", digestType, err)
+			return
+		}
+		if got.String() != want {
+			m.violate("digest-equals-published-construction", "remote-pins", "remote module published against commit 1 of its dependency, module set holds commit 2 (recorded keys: %v): digest %s, reference over its files and the digest of commit 1 is %s", digestType, got.String(), want)
+		}
+		m.s.Probe("remote-module-with-pinned-dependency")
+	}
 }
 
 // concurrentDigests: several goroutines ask the same module objects for their digests and
